@@ -382,6 +382,8 @@ class BaseWorklist(list):
         if not direction in {"left_to_right", "right_to_left"}:
             raise ValueError(f'"direction" must be either "left_to_right" or "right_to_left"')
         direction_i = 0 if direction == "left_to_right" else 1
+        if not isinstance(liquid_class, str) or ";" in liquid_class:
+            raise ValueError(f"Invalid liquid_class: {liquid_class}")
 
         if exclude_wells is None:
             exclude_list = []
